@@ -1,1 +1,109 @@
-From QS Require Import theories.Broker.
+(** C01 — Cash is conserved across master account, portfolios and fills.
+    Property theorems only; every proof is [exact <lemma>]. *)
+From Coq Require Import ZArith QArith String List.
+From QS Require Import theories.Num theories.Position theories.Portfolio theories.Fees
+  theories.Broker proofs.Ledger proofs.LedgerHist.
+Import ListNotations.
+Open Scope Q_scope.
+
+(** For every data handler ([bidask], [midp]), every constructor argument and every finite
+    operation list: each portfolio's cash is its transfers in minus transfers out minus,
+    for every fill, price x signed quantity + commission; the master account is initial
+    funds + external subscriptions - withdrawals - net transfers. *)
+Theorem pf_cash_ledger :
+  forall bidask midp pre start base funds fee b0 ops b1 rs es pid,
+    broker_init start base funds fee = Ok b0 ->
+    run bidask midp pre b0 ops = (b1, rs, es) ->
+    cash_of pid b1 == xfer_sum pid es - fill_sum pid es /\
+    b_cash b1 == funds + ext_sum es - xfer_all es.
+Proof. exact ledger_from_init. Qed.
+Print Assumptions pf_cash_ledger.
+
+(** The same from any state (not only a fresh broker): the ledger is an invariant of [step]. *)
+Theorem cash_ledger_invariant :
+  forall bidask midp pre ops b b1 rs es pid,
+    run bidask midp pre b ops = (b1, rs, es) ->
+    b_cash b1 == b_cash b + ext_sum es - xfer_all es /\
+    cash_of pid b1 == cash_of pid b + xfer_sum pid es - fill_sum pid es.
+Proof. exact run_ledger. Qed.
+Print Assumptions cash_ledger_invariant.
+
+(** Every transfer is zero-sum between the two accounts and touches no third one. *)
+Theorem transfer_is_zero_sum :
+  forall bidask midp pre b pid a b1 r t,
+    step bidask midp pre b (SubPf pid a) = (b1, r, [XferIn pid a t]) ->
+    b_cash b1 == b_cash b - a /\ cash_of pid b1 == cash_of pid b + a /\
+    forall q, String.eqb q pid = false -> cash_of q b1 == cash_of q b.
+Proof. exact transfer_zero_sum. Qed.
+Print Assumptions transfer_is_zero_sum.
+
+Theorem transfer_back_is_zero_sum :
+  forall bidask midp pre b pid a b1 r t,
+    step bidask midp pre b (WdPf pid a) = (b1, r, [XferOut pid a t]) ->
+    b_cash b1 == b_cash b + a /\ cash_of pid b1 == cash_of pid b - a /\
+    forall q, String.eqb q pid = false -> cash_of q b1 == cash_of q b.
+Proof. exact transfer_back_zero_sum. Qed.
+Print Assumptions transfer_back_is_zero_sum.
+
+(** Nothing else ever changes a cash balance: an operation that records no cash movement
+    (a refused request, an order submission, a clock update without fills, any getter)
+    leaves master cash and every portfolio's cash identical (Leibniz equality). *)
+Theorem cash_frame :
+  forall bidask midp pre b o b1 r,
+    step bidask midp pre b o = (b1, r, []) ->
+    b_cash b1 = b_cash b /\ forall pid, cash_of pid b1 = cash_of pid b.
+Proof. exact step_frame. Qed.
+Print Assumptions cash_frame.
+
+(** Account-level totals are obtainable in every state (they return [Ok]), carry one entry
+    per portfolio equal to that portfolio's own figure, and "master" is their sum. *)
+Theorem account_totals_obtainable :
+  forall bidask midp pre b,
+    step bidask midp pre b GetAcctTMV =
+      (b, Ok (ODict (map (fun pa => (fst pa, pf_total_mv (a_pf (snd pa)))) (b_accts b) ++
+                     [("master"%string, qsum (map (fun pa => pf_total_mv (a_pf (snd pa))) (b_accts b)))])), []) /\
+    step bidask midp pre b GetAcctEquity =
+      (b, Ok (ODict (map (fun pa => (fst pa, pf_total_equity (a_pf (snd pa)))) (b_accts b) ++
+                     [("master"%string, qsum (map (fun pa => pf_total_equity (a_pf (snd pa))) (b_accts b)))])), []).
+Proof. exact account_totals. Qed.
+Print Assumptions account_totals_obtainable.
+
+Theorem per_portfolio_figures :
+  forall bidask midp pre b pid ac,
+    acct_find pid (b_accts b) = Some ac ->
+    step bidask midp pre b (GetPfTMV pid) = (b, Ok (ONum (pf_total_mv (a_pf ac))), []) /\
+    step bidask midp pre b (GetPfEquity pid) = (b, Ok (ONum (pf_total_equity (a_pf ac))), []) /\
+    step bidask midp pre b (GetPfCash pid) = (b, Ok (ONum (pf_cash (a_pf ac))), []) /\
+    pf_total_equity (a_pf ac) == pf_total_mv (a_pf ac) + pf_cash (a_pf ac).
+Proof. exact per_portfolio_getters. Qed.
+Print Assumptions per_portfolio_figures.
+
+(** The event history of a portfolio is exactly its ledger: one event per cash movement,
+    in order, amounts and running true balance rounded half-even to cents, nothing else
+    (Leibniz equality of the event lists). *)
+Theorem history_is_ledger :
+  forall bidask midp pre start base funds fee b0 ops b1 rs es pid,
+    broker_init start base funds fee = Ok b0 ->
+    run bidask midp pre b0 ops = (b1, rs, es) ->
+    hist_of pid b1 = ledger_hist pid es 0.
+Proof. exact history_from_init. Qed.
+Print Assumptions history_is_ledger.
+
+(** Non-vacuity: a concrete run with a transfer, a short sale that flips to a long, a
+    percentage fee and an overdrawn balance meets the hypotheses and has a non-empty ledger. *)
+Definition ex_quote (t : Z) (a : string) : option (Q * Q) := Some (10 # 1, 11 # 1).
+Definition ex_mid (t : Z) (a : string) : option Q := Some (21 # 2).
+Definition ex_ops : list op :=
+  [Create "P"; SubPf "P" (1000 # 1); Submit "P" "A" (-5); Update 1578321000;
+   Submit "P" "A" 200; Update 1578321060; WdPf "P" (1 # 4)].
+Example ledger_nonvacuous :
+  exists b0 b1 rs es,
+    broker_init 1578268800 "USD" (5000 # 1) (PercentFee (1 # 100) (1 # 200)) = Ok b0 /\
+    run ex_quote ex_mid true b0 ex_ops = (b1, rs, es) /\
+    length es = 3%nat /\ Qlt (cash_of "P" b1) 0 /\ length (hist_of "P" b1) = 3%nat.
+Proof.
+  eexists. eexists. eexists. eexists.
+  split; [reflexivity|]. split; [vm_compute; reflexivity|].
+  split; [reflexivity|]. split; [reflexivity|]. reflexivity.
+Qed.
+Print Assumptions ledger_nonvacuous.
